@@ -834,12 +834,12 @@ func cacheIter(seed uint64) (violation string, iterations, yields int64) {
 
 func RunC15(col *core.Collector, tier, variant string, seed uint64, shard, nshards int, replayDir, outBase string) {
 	col.Note("rule: a trial = lookups and per-key atomic updates on hot keys (recorded, porcupine per key), a stable key set that every concurrent lookup and every concurrent Range must find exactly once, churn goroutines that grow and shrink the table, Rangers checking once-only / nothing-removed-before-start, Size at quiescence, Clear; non-trivial = the table grew or shrank during the trial and at least one hot key history overlapped; distinct = hash of the hot-key history")
-	n := 500
+	n := 440
 	if tier == "thorough" {
 		n = 12000
 	}
 	if variant != "plain" {
-		n /= 3
+		n /= 4
 	}
 	dump := filepath.Join(replayDir, fmt.Sprintf("C15-stall-%s-%d.txt", variant, shard))
 	wd := StartWatchdog(40*time.Second, dump, func(d string) {
